@@ -55,23 +55,28 @@ CorrVerdict(e, T, j, c) ==
           ELSE IF r.ok THEN (IF c.r = "ok" THEN "ok" ELSE "tool")      \* the model accepts it: not a corruption the property talks about
           ELSE IF c.r = "ok" THEN "violation" ELSE "ok"
 
+\* The mismatch classes of one event, as a VALUE (TLC does not cache LET definitions that sit directly in an
+\* action, it does inside an operator evaluated as an expression: the JSON form is computed once per event).
+JudgeModelled(e) ==
+  LET T == JS.top[e.type]
+      C0 == Ctx(e, NoFacts)
+      p == FromBytes(C0, T, e.bytes)
+  IN IF ~p.ok THEN <<"TOOL">>
+     ELSE LET j == ToJ(C0, T, p.v) IN
+          IF ~JEq(j, Expand(e.json)) THEN <<"C20.json">>
+          ELSE LET vs == [i \in 1..Len(e.cs) |-> CorrVerdict(e, T, j, e.cs[i])] \o <<>> IN
+               (IF \A i \in 1..Len(vs) : vs[i] # "tool" THEN <<>> ELSE <<"TOOL">>)
+               \o (IF \A i \in 1..Len(vs) : vs[i] # "violation" THEN <<>> ELSE <<"C20.corrupt">>)
+Judge(e) ==
+  (IF Back(e) THEN <<>> ELSE <<"C20.back">>)
+  \o (IF e.rebuilt /\ e.walk THEN <<>> ELSE <<"TOOL">>)
+  \o (IF e.m /\ e.to = "ok" THEN JudgeModelled(e) ELSE <<>>)
+Tagged(i, cs) == [q \in 1..Len(cs) |-> <<i, cs[q]>>]
+
 VARIABLE l
 Init == l = 1 /\ MismatchInit
 Next == /\ l <= Len(Rec)
-        /\ LET e == Rec[l] IN
-           /\ CheckC(Back(e), l, "C20.back")
-           /\ CheckC(e.rebuilt /\ e.walk, l, "TOOL")
-           /\ IF e.m /\ e.to = "ok"
-              THEN LET T == JS.top[e.type]
-                       C0 == Ctx(e, NoFacts)
-                       p == FromBytes(C0, T, e.bytes)
-                   IN IF ~p.ok THEN NoteMismatch(l, "TOOL")
-                      ELSE LET j == ToJ(C0, T, p.v) IN
-                           IF ~JEq(j, Expand(e.json)) THEN NoteMismatch(l, "C20.json")
-                           ELSE LET vs == [i \in 1..Len(e.cs) |-> CorrVerdict(e, T, j, e.cs[i])] \o <<>> IN
-                                /\ CheckC(\A i \in 1..Len(vs) : vs[i] # "tool", l, "TOOL")
-                                /\ CheckC(\A i \in 1..Len(vs) : vs[i] # "violation", l, "C20.corrupt")
-              ELSE TRUE
+        /\ TLCSet(1, TLCGet(1) \o Tagged(l, Judge(Rec[l])))
         /\ l' = l + 1
 Accepted == Report(TLCGet("stats").diameter - 1) /\ PrintT(<<"MISMATCH", ToJson(TLCGet(1))>>)
 =============================================================================
